@@ -111,11 +111,9 @@ def live_nodes(fnode, consts):
             out.append(n)
             visit(n.test)
             if t is not False:
-                for s in n.body:
-                    visit(s)
+                visit_block(n.body)
             if t is not True:
-                for s in n.orelse:
-                    visit(s)
+                visit_block(n.orelse)
             return
         if isinstance(n, ast.IfExp):
             t = pe_test(n.test, consts)
@@ -137,10 +135,32 @@ def live_nodes(fnode, consts):
                     break
             return
         out.append(n)
-        for c in ast.iter_child_nodes(n):
-            visit(c)
+        for fld, val in ast.iter_fields(n):
+            if isinstance(val, list) and val and isinstance(val[0], ast.stmt):
+                visit_block(val)
+            elif isinstance(val, list):
+                for c in val:
+                    if isinstance(c, ast.AST):
+                        visit(c)
+            elif isinstance(val, ast.AST):
+                visit(val)
 
-    for st in fnode.body:
+    def leaves(stmts):
+        return bool(stmts) and isinstance(stmts[-1], (ast.Return, ast.Raise, ast.Continue, ast.Break))
+
+    def visit_block(stmts):
+        """Statements of one block in order; a guard clause whose test is statically true and whose body leaves ends the block."""
+        for st in stmts:
+            visit(st)
+            if isinstance(st, ast.If):
+                t = pe_test(st.test, consts)
+                if (t is True and leaves(st.body)) or (t is False and leaves(st.orelse)):
+                    break
+            elif isinstance(st, (ast.Return, ast.Raise, ast.Continue, ast.Break)):
+                break
+
+    visit_block(fnode.body)
+    for st in ():
         visit(st)
     for d in fnode.args.defaults + [d for d in fnode.args.kw_defaults if d is not None]:
         visit(d)
@@ -609,9 +629,10 @@ class Resolver:
         return False
 
     # ------------------------------------------------------------------ primitive effects of one node
-    def node_effects(self, n, finfo):
+    def node_effects(self, n, finfo, consts=None):
         idx = self.index
         out = []
+        self._ctx_consts = consts or {}
         if isinstance(n, ast.Call):
             canon = idx.canon(n.func, n._module) if isinstance(n.func, (ast.Name, ast.Attribute)) else None
             attr = n.func.attr if isinstance(n.func, ast.Attribute) else None
@@ -668,7 +689,17 @@ class Resolver:
             return False
         if finfo.name in ("__init__", "__attrs_post_init__"):
             return True
-        return any((dn or "").endswith(".default") for dn in finfo.decorator_names())
+        if any((dn or "").endswith(".default") for dn in finfo.decorator_names()):
+            return True
+        # a private loader only the initialiser calls
+        if finfo.cls is not None and finfo.name.startswith("_") and not getattr(self, "_building_rev", False) and not getattr(self, "_in_isinit", False):
+            self._in_isinit = True
+            try:
+                sites = self.call_sites(finfo)
+                return bool(sites) and all(self._is_init(g) for g, _c in sites)
+            finally:
+                self._in_isinit = False
+        return False
 
     def _open_mode(self, call, finfo, is_method=False):
         mode_node = None
@@ -686,11 +717,18 @@ class Resolver:
         except CantEval:
             return None
 
-    def _first_arg_const(self, call, finfo):
+    def _first_arg_const(self, call, finfo, _depth=0):
         if not call.args:
             return None
         a = call.args[0]
         if isinstance(a, ast.Starred):
+            # call(*CONSTANT_TUPLE, ...): a module-level command tuple
+            try:
+                v = self.ev.eval(a.value, call._module)
+                if isinstance(v, (list, tuple)) and v and isinstance(v[0], str):
+                    return v[0]
+            except CantEval:
+                pass
             # call(*cmd): look at the list literal assigned to cmd in this function
             if isinstance(a.value, ast.Name) and finfo is not None:
                 for n in walk_no_nested(finfo.node):
@@ -701,7 +739,33 @@ class Resolver:
         try:
             return self.ev.eval(a, call._module)
         except CantEval:
-            return None
+            pass
+        if isinstance(a, ast.Name) and isinstance(getattr(self, "_ctx_consts", {}).get(a.id), str):
+            return self._ctx_consts[a.id]   # bound in this calling context
+        # a parameter of a thin wrapper (e.g. Client._request(kind, ...)): the constants passed at all of its call sites, if they agree in class
+        if isinstance(a, ast.Name) and finfo is not None and _depth < 2 and not getattr(self, "_building_rev", False):
+            params = [x.arg for x in finfo.node.args.posonlyargs + finfo.node.args.args]
+            if a.id in params:
+                pos = params.index(a.id) - (1 if finfo.cls is not None and params and params[0] in ("self", "cls") else 0)
+                vals = set()
+                for g, site in self.call_sites(finfo):
+                    arg = next((k.value for k in site.keywords if k.arg == a.id), None)
+                    if arg is None and 0 <= pos < len(site.args):
+                        arg = site.args[pos]
+                    if arg is None:
+                        return None
+                    try:
+                        vals.add(self.ev.eval(arg, site._module))
+                    except CantEval:
+                        return None
+                if vals:
+                    classes = {LOCAL_CLASS.get(v, SCHED_CLASS.get(v, "?")) for v in vals}
+                    # report the "worst" constant: anything that is not a pure read wins
+                    for v in sorted(vals, key=str):
+                        if LOCAL_CLASS.get(v, SCHED_CLASS.get(v)) not in ("LOCAL_READ", "SCHED_READ", None):
+                            return v
+                    return sorted(vals, key=str)[0]
+        return None
 
     # ------------------------------------------------------------------ reachability
     def bind_args(self, call, callee, finfo, bindings):
@@ -725,8 +789,8 @@ class Resolver:
                 pairs.append((kw.arg, kw.value))
         consts = {k: v for k, v in bindings.items() if not isinstance(v, tuple)}
         for pname, a in pairs:
-            if isinstance(a, ast.Constant) and (isinstance(a.value, bool) or a.value is None):
-                new[pname] = a.value
+            if isinstance(a, ast.Constant) and (isinstance(a.value, (bool, str)) or a.value is None):
+                new[pname] = a.value   # strings too: message kinds / command names handed to thin wrappers
             elif isinstance(a, ast.Name) and a.id in bindings:
                 new[pname] = bindings[a.id]
             else:
@@ -756,7 +820,7 @@ class Resolver:
             for n in live_nodes(fi.node, consts):
                 if isinstance(n, FUNC_TYPES):
                     continue  # nested defs are entered when called
-                for e in self.node_effects(n, fi):
+                for e in self.node_effects(n, fi, consts):
                     e.chain = chain
                     effects.append(e)
                 if isinstance(n, (ast.With, ast.AsyncWith)):
